@@ -157,6 +157,32 @@ def gen_vtp(rng, n: int, sizes: dict, plan_p, plan_c, ptype="Float32", ctype="In
             "pf": gen_fields(rng, n, plan_p, "p"), "cf": gen_fields(rng, ncells, plan_c, "c")}
 
 
+STRUCTURED = {"vti": "ImageData", "vtr": "RectilinearGrid", "vts": "StructuredGrid"}
+
+
+def gen_structured(rng, kind: str, cells, plan_p, plan_c, ptype="Float64"):
+    """ds of a structured file: `cells` per direction (0 = flat), lower extent corner at small random indices.
+    vts: explicit point coordinates, vtr: three ordinate arrays, vti: origin/spacing attributes only."""
+    lo = [rng.choice([0, 0, 1, -2]) for _ in range(3)]
+    ext = [v for d in range(3) for v in (lo[d], lo[d] + cells[d])]
+    npts = (cells[0] + 1) * (cells[1] + 1) * (cells[2] + 1)
+    ncells = max(cells[0], 1) * max(cells[1], 1) * max(cells[2], 1)
+    ds = {"kind": kind, "ext": ext, "npts": npts, "ncells": ncells, "ptype": ptype,
+          "pf": gen_fields(rng, npts, plan_p, "p"), "cf": gen_fields(rng, ncells, plan_c, "c")}
+    if kind == "vts":
+        ds["points"] = hx(gen_points(rng, npts, ptype))
+    elif kind == "vtr":
+        ds["coords"] = []
+        for d in range(3):
+            x0 = float(rng.randint(-4, 4))
+            vals = [x0 + i * rng.choice([0.5, 1.0, 1.25]) + (0.125 if i % 2 else 0.0) for i in range(cells[d] + 1)]
+            ds["coords"].append(hx(np.array(vals, dtype=np_dtype(ptype)).tobytes()))
+    else:
+        ds["origin"] = [float(rng.randint(-3, 3)) for _ in range(3)]
+        ds["spacing"] = [rng.choice([0.5, 1.0, 2.0]) for _ in range(3)]
+    return ds
+
+
 def full_plan():
     return [(t, nc) for t in TYPE_NAMES for nc in (1, 3, 9)]
 
@@ -168,7 +194,17 @@ def cyclic_plan(shift: int):
 def ncells_of(ds) -> int:
     if ds["kind"] == "vtu":
         return len(ds["cells"])
+    if ds["kind"] in STRUCTURED:
+        return ds["ncells"]
     return sum(len(v) for v in ds["sections"].values())
+
+
+def n_arrays(ds) -> int:
+    """number of <DataArray> elements of the file"""
+    mesh = {"vtu": 4, "vti": 0, "vtr": 3, "vts": 1}.get(ds["kind"])
+    if mesh is None:
+        mesh = 1 + 2 * len(ds["sections"])
+    return len(ds["pf"]) + len(ds["cf"]) + mesh
 
 
 # ------------------------------------------------------------------ configurations
@@ -224,7 +260,11 @@ def base_arrays(ds):
         arrs.append({"sec": "PointData", "name": f["name"], "type": f["type"], "ncomp": f["ncomp"], "le": unhx(f["le"])})
     for f in ds["cf"]:
         arrs.append({"sec": "CellData", "name": f["name"], "type": f["type"], "ncomp": f["ncomp"], "le": unhx(f["le"])})
-    arrs.append({"sec": "Points", "name": "Coordinates", "type": ds["ptype"], "ncomp": 3, "le": unhx(ds["points"])})
+    if ds["kind"] == "vtr":
+        for nm, c in zip("xyz", ds["coords"]):
+            arrs.append({"sec": "Coordinates", "name": nm, "type": ds["ptype"], "ncomp": 1, "le": unhx(c)})
+    elif ds["kind"] != "vti":
+        arrs.append({"sec": "Points", "name": "Coordinates", "type": ds["ptype"], "ncomp": 3, "le": unhx(ds["points"])})
     return arrs
 
 
@@ -333,6 +373,18 @@ def wrap_file(ds, cfg, arrs, xmls, counts=None) -> bytes:
                 f'<Points>\n{sec("Points")}\n</Points>\n<Cells>\n{sec("Cells")}\n</Cells>\n'
                 f'</Piece></UnstructuredGrid>')
         gtype = "UnstructuredGrid"
+    elif ds["kind"] in STRUCTURED:
+        gtype = STRUCTURED[ds["kind"]]
+        ext = " ".join(str(v) for v in ds["ext"])
+        extra = ""
+        if ds["kind"] == "vti":
+            extra = (f' Origin="{" ".join(repr(v) for v in ds["origin"])}"'
+                     f' Spacing="{" ".join(repr(v) for v in ds["spacing"])}"')
+        geo = {"vti": "", "vtr": f'<Coordinates>\n{sec("Coordinates")}\n</Coordinates>\n',
+               "vts": f'<Points>\n{sec("Points")}\n</Points>\n'}[ds["kind"]]
+        body = (f'<{gtype} WholeExtent="{ext}"{extra}><Piece Extent="{ext}">\n'
+                f'<PointData>\n{sec("PointData")}\n</PointData>\n<CellData>\n{sec("CellData")}\n</CellData>\n'
+                f'{geo}</Piece></{gtype}>')
     else:
         counts = counts or {s: len(ds["sections"].get(s, [])) for s, _, _ in VTP_SECTIONS}
         secs = "".join(f"<{s}>\n{sec(s)}\n</{s}>\n" for s, _, _ in VTP_SECTIONS if counts.get(s, 0))
@@ -368,6 +420,8 @@ def obs_impl(path: str) -> dict:
             fields = read_field_data(path)
             dom = fields.domain
             out = {"points": arr_obs(dom.points), "cells": {}, "pf": {}, "cf": {}}
+            pts64 = np.asarray(dom.points).astype("<f8")
+            out["points64"] = {"shape": [int(v) for v in pts64.shape], "le": pts64.tobytes().hex()}
             for ct in dom.cell_types:
                 conn = np.asarray(dom.connectivity(ct))
                 out["cells"][ct.name] = [[int(i) for i in row] for row in conn]
@@ -398,6 +452,36 @@ def obs_logical(ds, arrays: dict, layout, cds) -> dict:
         for tn, rows in cd:
             out["cf"][f["name"] + "@" + tn] = logical_arr(b"".join(rows), f["type"], len(rows), f["ncomp"])
     return out
+
+
+def obs_logical_structured(ds, arrays: dict) -> dict:
+    """structured files: point and cell fields (ONE cell type, all cells, file order); the points as float64 values
+    for .vts (explicit coordinates) and .vtr (tensor product of the ordinates, x fastest); .vti geometry consists of
+    attributes only and is not part of this property"""
+    out = {"points": None, "cells": {}, "pf": {}, "cf": {}}
+    if ds["kind"] == "vts":
+        p = np.frombuffer(arrays["Points/Coordinates"], dtype=np_dtype(ds["ptype"])).astype("<f8").reshape(ds["npts"], 3)
+        out["points"] = {"shape": [ds["npts"], 3], "le": p.tobytes().hex()}
+    elif ds["kind"] == "vtr":
+        xs, ys, zs = (np.frombuffer(arrays["Coordinates/" + nm], dtype=np_dtype(ds["ptype"])).astype("<f8") for nm in "xyz")
+        p = np.array([[x, y, z] for z in zs for y in ys for x in xs], dtype="<f8").reshape(ds["npts"], 3)
+        out["points"] = {"shape": [ds["npts"], 3], "le": p.tobytes().hex()}
+    for f in ds["pf"]:
+        out["pf"][f["name"]] = logical_arr(arrays["PointData/" + f["name"]], f["type"], ds["npts"], f["ncomp"])
+    for f in ds["cf"]:
+        out["cf"][f["name"] + "@*"] = logical_arr(arrays["CellData/" + f["name"]], f["type"], ds["ncells"], f["ncomp"])
+    return out
+
+
+def structured_view(ds, impl: dict) -> dict:
+    """the implementation's observables reduced to what `obs_logical_structured` speaks about"""
+    if "error" in impl:
+        return impl
+    cf = {}
+    for k, v in impl["cf"].items():
+        name, ct = k.rsplit("@", 1)
+        cf[name + "@*" if len(impl["cells"]) == 1 else k] = v
+    return {"points": impl.get("points64") if ds["kind"] in ("vts", "vtr") else None, "cells": {}, "pf": impl["pf"], "cf": cf}
 
 
 def diff_obs(a: dict, b: dict) -> list[str]:
@@ -648,10 +732,15 @@ class Batch:
             if lay["model"] != lay["spec"] or lay["cdmodel"] != lay["cdspec"]:
                 model_ok = False
                 ctx.inconsistent({"cells": ds.get("cells", ds.get("sections"))}, lay["model"], lay["spec"])
-        expected = obs_logical(ds, logical_bytes, layout, cds)
         impl = obs_impl(info["path"])
+        if ds["kind"] in STRUCTURED:
+            expected = obs_logical_structured(ds, logical_bytes)
+            impl = structured_view(ds, impl)
+        else:
+            expected = obs_logical(ds, logical_bytes, layout, cds)
+            impl.pop("points64", None)
         d = diff_obs(impl, expected)
-        nontrivial = len(arrs[0]["le"]) > 0 or ds["npts"] > 0
+        nontrivial = ds["npts"] > 0 or bool(arrs and len(arrs[0]["le"]) > 0)
         ctx.case(key, nontrivial=nontrivial, tags=["file-" + ds["kind"], "cfg-" + cfg_key(cfg).replace("/mixed", "")] + tags,
                  sample={"cfg": cfg, "kind": ds["kind"], "npts": ds["npts"], "ncells": ncells_of(ds),
                          "arrays": len(arrs), "impl_error": impl.get("error"), "diff": d,
@@ -710,8 +799,9 @@ def boundary_tags(lengths, cfg):
 
 
 def array_lengths(ds):
-    ls = [len(unhx(f["le"])) for f in ds["pf"] + ds["cf"]] + [len(unhx(ds["points"]))]
-    return ls
+    ls = [len(unhx(f["le"])) for f in ds["pf"] + ds["cf"]]
+    ls += [len(unhx(ds["points"]))] if "points" in ds else [len(unhx(c)) for c in ds.get("coords", [])]
+    return ls or [0]
 
 
 def matrix(Bs):
@@ -750,6 +840,13 @@ def random_ds(rng, kind):
     it = rng.choice(["Int32", "Int64", "UInt32", "UInt64", "Int16", "UInt8"])
     ot = rng.choice(["Int32", "Int64", "UInt32", "UInt64"])
     pt = rng.choice(["Float32", "Float64"])
+    if kind in STRUCTURED:
+        cells = rng.choice([(2, 1, 0), (3, 0, 0), (1, 1, 1), (2, 2, 1), (0, 2, 0), (1, 0, 2), (0, 0, 0), (4, 1, 0)])
+        if kind == "vts" and cells == (0, 0, 0):
+            # a zero-dimensional .vts (one point) raises IndexError in StructuredMesh for EVERY encoding (ascii
+            # included): not an encoding matter, outside this property (see NOTES_C05.md, observation O1)
+            cells = (1, 0, 0)
+        return gen_structured(rng, kind, cells, plan_p, plan_c, ptype=pt)
     if kind == "vtu":
         m = rng.choice([0, 0, 1, 2, 3, 4, 5, 8])
         pool = rng.sample(list(CELL), rng.randint(1, 3))
@@ -1264,13 +1361,22 @@ def run(ctx):
         for i in range(0, len(sample), 40):
             batch.run([(dsp, c) for c in sample[i:i + 40]],
                       tags_of=lambda d, c, L=lengths: ["matrix-vtp"] + boundary_tags(L, c))
+        # ---- structured files (.vti / .vtr / .vts): data arrays through the same matrix
+        for kind, cells in (("vti", (2, 1, 0)), ("vtr", (2, 1, 1)), ("vts", (1, 2, 0))):
+            dss = gen_structured(rng, kind, cells, cyclic_plan(1), cyclic_plan(0),
+                                 ptype="Float32" if kind == "vtr" else "Float64")
+            lengths = array_lengths(dss)
+            ms = matrix(block_sizes_for(lengths))
+            sample = [c for c in ms if not c["comp"]] + rng.sample([c for c in ms if c["comp"]], ctx.scale(14, 120))
+            for i in range(0, len(sample), 40):
+                batch.run([(dss, c) for c in sample[i:i + 40]],
+                          tags_of=lambda d, c, L=lengths: ["matrix-structured"] + boundary_tags(L, c))
         # ---- random data sets x random configurations (mixed per-array formats, empty cell sets, odd block sizes)
         n_rand = ctx.scale(200, 40000)
         cases = []
         for _ in range(n_rand):
-            ds = random_ds(rng, "vtu" if rng.random() < 0.7 else "vtp")
-            narr = len(ds["pf"]) + len(ds["cf"]) + 1 + (3 if ds["kind"] == "vtu" else 2 * len(ds["sections"]))
-            cases.append((ds, random_cfg(rng, narr, array_lengths(ds))))
+            ds = random_ds(rng, rng.choice(["vtu"] * 11 + ["vtp"] * 4 + ["vti", "vti", "vtr", "vts", "vts"]))
+            cases.append((ds, random_cfg(rng, n_arrays(ds), array_lengths(ds))))
         for i in range(0, len(cases), 100):
             batch.run(cases[i:i + 100], tags_of=lambda d, c: ["random"] + boundary_tags(array_lengths(d), c) +
                       (["no-cells"] if ncells_of(d) == 0 else []) + (["mixed-formats"] if c.get("fmts") else []))
